@@ -234,8 +234,14 @@ def _run(case, rng, kind, res, bump, tmp, PreOCF, RandomMinCRepPreOCF):
         try:
             o.save_metadata(mp)
             t = mk() if kind == 'custom' else PreOCF.init_custom({'0': 0, '1': 1}, None, ['a'])
+            if rng.random() < 0.6:
+                # the receiving object already has metadata: loaded keys overwrite, other keys stay
+                t.save_meta('kept-from-before', 42)
+                t.save_meta(sorted(meta)[0], 'stale value')
             t.load_metadata(mp)
             got = {k_: v for k_, v in t.metadata.items() if k_ in meta}
+            if 'kept-from-before' in t.metadata and t.metadata['kept-from-before'] != 42:
+                viol('metadata-load-damaged-existing-key', suffix=suf)
             if json.dumps(got, sort_keys=True) != json.dumps(meta, sort_keys=True):
                 viol('metadata-roundtrip-differs:suffix-%s%s' % (cls, ':upper-case' if suf != suf.lower() else ''), suffix=suf, got=got, expected=meta)
         except Exception as e:
